@@ -389,6 +389,19 @@ def exec_set_wrapper(sess: Session, op: dict, step: int) -> docops.Effect:
     old_ids = {id(t) for t in old.tokens}
     sibs = docops.sibling_snapshot(owner, {m.slot})
     try:
+        # (bookkeeping for known finding KF6: the replaced list's placeholder sits behind the newline that
+        # separates its first item from what precedes the field - the state a claim "from below" leaves)
+        st0 = old.token_store
+        prev = st0.get_prev(old.first_token)
+        hops = 0
+        while prev is not None and not prev.raw_text and hops < 64:
+            prev = st0.get_prev(prev)
+            hops += 1
+        if isinstance(prev, models.Newline) and list(old.items):
+            sess.wrapper_assigned_behind_newline = True
+    except Exception:
+        pass
+    try:
         setattr(owner, m.name, donor)
     except Exception as e:
         eff.exc = e
